@@ -29,7 +29,11 @@ THE INTERLEAVING MODEL (template.rs: `micro`, `env`; trusted) — Verus verifies
 suspension point (`.await`: rule `c29-await-st` makes each one a call that takes the ghost state) the rest of the server performs any finite
 number of `micro` steps: a text-sync handler writes the store (and becomes the one in-flight handler), the in-flight handler applies its text to /
 finishes its look at the analysis, the disk changes. `rely` (what every such run preserves) is PROVED from `micro` (lemma_micro_rely / _trans /
-_reach_rely); the exec proofs use only `rely`."""
+_reach_rely); the exec proofs use only `rely`. The handlers themselves (on_did_open / on_did_change / on_did_close) are verified ON THEIR OWN against the
+micro steps (`quiet`: store first, then the analysis) — the guarantee side of the model. Two clauses FAIL on the current tree (see `findings`):
+C29.close.closed-document-reflects-disk (didClose keeps the editor text of a workspace file; C29.reload.closed-files-reflect-disk is proved RELATIVE to
+it) and C29.reindex.open-files-keep-editor-text (the reindex task's cleanup drops an open document whose file is gone). The proof overlay of the
+reindex slice follows the text of the tree (REINDEX_PROOF), so that the unit verifies the repaired tree as well."""
 import re
 
 from vc import rustlex as L
